@@ -1,5 +1,6 @@
 """Per-scenario comparison of Impl (harness observation), Model and Spec (Lean driver)."""
 import json
+import re
 
 
 class Orch:
@@ -209,6 +210,22 @@ class EvalScn:
         if c.get("build"):
             return [{"aspect": "build", "kind": "impl-vs-model", "method": c.get("mode"),
                      "detail": "generated text rejected: %s" % c["build"][:300]}]
+        for k, sh in enumerate((o or {}).get("shapes") or []):
+            if not sh:
+                continue
+            nm = (c.get("rules") or [{}] * (k + 1))[k].get("hdr", {}).get("name")
+            if sh.get("wf") is not True:
+                issues.append({"aspect": "driver", "kind": "impl-vs-model", "method": c.get("mode"),
+                               "detail": "rule %d (%s): generated reference tree is not well-formed" % (k, nm)})
+            if sh.get("shape") is not True:
+                w, g = sh["shape"].get("want", ""), sh["shape"].get("got", "")
+                structural = re.sub(r"@\d+@", "@", w) != re.sub(r"@\d+@", "@", g)
+                i = 0
+                while i < min(len(w), len(g)) and w[i] == g[i]:
+                    i += 1
+                issues.append({"aspect": "shape" if structural else "shape-pos", "kind": "impl-vs-model", "method": c.get("mode"),
+                               "detail": "rule %d (%s): the listener's AST is not the lowering of the program: expected ...%s  got ...%s"
+                                         % (k, nm, w[max(0, i - 80):i + 80], g[max(0, i - 80):i + 80])})
         for side, kind in (("model", "impl-vs-model"), ("spec", "impl-vs-spec")):
             outs = (o or {}).get(side)
             if outs is None:
